@@ -57,10 +57,38 @@ def determinism(pids, n, seed):
     return 2 if bad else 0
 
 
+def models():
+    """Cross-validate the reference models against definition-level enumeration."""
+    import random
+    import numpy as np
+    from models import ref_matching as rm, ref_mgh
+    rng = random.Random(20261004)
+    bad = 0
+    for _ in range(300):
+        S = np.array([[b, b + rng.randint(0, 6) * 0.5] for b in (rng.randint(0, 6) * 0.5 for _ in range(rng.randint(0, 4)))]).reshape(-1, 2)
+        T = np.array([[b, b + rng.randint(0, 6) * 0.5] for b in (rng.randint(0, 6) * 0.5 for _ in range(rng.randint(0, 4)))]).reshape(-1, 2)
+        if abs(rm.enum_minmax(S, T) - rm.ref_bottleneck(S, T)) > 1e-12:
+            bad += 1
+        if abs(rm.enum_minsum(S, T) - rm.ref_wasserstein(S, T)) > 1e-9:
+            bad += 1
+    for _ in range(200):
+        def g(n):
+            e = [(i, rng.randrange(i)) for i in range(1, n)] + [(i, j) for i in range(n) for j in range(i) if rng.random() < 0.2]
+            return ref_mgh.distance_matrix(n, e).astype(int)
+        a, b = g(rng.randint(1, 5)), g(rng.randint(1, 5))
+        if ref_mgh.min_distortion(a, b) != ref_mgh.min_distortion_flat(a, b):
+            bad += 1
+    print("reference-model self-test: %s" % ("OK" if not bad else "%d DISAGREEMENTS" % bad))
+    return 2 if bad else 0
+
+
 def smoke():
     import persim  # noqa: F401
     import hopcroftkarp  # noqa: F401
     import hypothesis  # noqa: F401
+    rc = models()
+    if rc:
+        return rc
     rc = determinism(None, 5, 0)
     print("smoke: persim from %s; determinism rc=%d" % (os.path.dirname(persim.__file__), rc))
     return rc
